@@ -43,7 +43,10 @@ class FdTable(EngineBase):
                 d["flags"] = (d["flags"] & ~3) | 3     # access mode 3
             fds.append([fd, d])
         io_extra = rng.choice(["", "", "\n", "garbage line\n", "x: y: z\n",
-                               "\n\n"])
+                               "\n\n", "total_rchar: 77\n",
+                               "garbage rchar: 9\n", "xwrite_bytes: 5\n",
+                               "cancelled_write_bytes: 3\n",
+                               "last_syscw: 4\nold_read_bytes: 8\n"])
         io = {"rchar": rng.randrange(0, 2 ** 63),
               "wchar": rng.randrange(0, 2 ** 40),
               "syscr": rng.randrange(0, 10 ** 9),
